@@ -7,7 +7,7 @@ checks=$(python3 -c "import json;print(' '.join(c['property_id'] for c in json.l
 for id in "$@"; do
   wt=/tmp/mx-$id
   git -C /repo worktree add -q --detach $wt HEAD || continue
-  ( cd $wt && git apply /verif/seeded/$id/patch.diff ) || { echo "$id: patch does not apply"; git -C /repo worktree remove --force $wt; continue; }
+  ( cd $wt && { git apply /verif/seeded/$id/patch.diff 2>/dev/null || git apply --3way /verif/seeded/$id/patch.diff; } ) || { echo "$id: patch does not apply"; git -C /repo worktree remove --force $wt; continue; }
   mkdir -p $wt/out
   : > seeded/$id/matrix.txt
   for p in $checks; do
